@@ -630,13 +630,14 @@ Definition one_pass (st : dstate) (c : dctx) (mb ma : Z) (ds ord : list Z)
   end.
 
 Inductive runres :=
-| RunDone (st : dstate) (passes : nat) (acc : pstats)   (* a pass proposed no move *)
+| RunDone (st : dstate) (passes : nat) (acc : pstats) (log : list (list move))   (* a pass proposed no move *)
 | RunFailed
 | RunOutOfFuel.
 
 (* passes with every move copied, until a pass proposes nothing; acc = DefragmentationStats.Add
-   of every pass (vam: DefragmentationContext.stats) *)
-Fixpoint run_copy (fuel : nat) (st : dstate) (c : dctx) (mb ma : Z) (acc : pstats) (n : nat) : runres :=
+   of every pass (vam: DefragmentationContext.stats); log = the moves of every pass *)
+Fixpoint run_copy (fuel : nat) (st : dstate) (c : dctx) (mb ma : Z) (acc : pstats) (n : nat)
+         (log : list (list move)) : runres :=
   match fuel with
   | O => RunOutOfFuel
   | S f =>
@@ -645,8 +646,32 @@ Fixpoint run_copy (fuel : nat) (st : dstate) (c : dctx) (mb ma : Z) (acc : pstat
     | Some (st', c', p', ms) =>
       let acc' := ps_add acc (p_stats p') in
       match ms with
-      | [] => RunDone st' n acc'
-      | _ => run_copy f st' c' mb ma acc' (S n)
+      | [] => RunDone st' n acc' (log ++ [ms])
+      | _ => run_copy f st' c' mb ma acc' (S n) (log ++ [ms])
+      end
+    end
+  end.
+
+(* one undisturbed pass whose decisions (MoveOperation per move, map iteration order) are chosen
+   after the moves are known *)
+Definition one_pass_with (st : dstate) (c : dctx) (mb ma : Z) (decide : list move -> list Z * list Z)
+  : option (dstate * dctx * pass * list move) :=
+  let ms := cs_moves (fst (collect_moves st c (pass_init mb ma))) in
+  one_pass st c mb ma (fst (decide ms)) (snd (decide ms)).
+
+(* an undisturbed run with arbitrary decisions: dec n ms = decisions of pass n for the moves ms *)
+Fixpoint run_any (fuel : nat) (st : dstate) (c : dctx) (mb ma : Z)
+         (dec : nat -> list move -> list Z * list Z) (acc : pstats) (n : nat) (log : list (list move)) : runres :=
+  match fuel with
+  | O => RunOutOfFuel
+  | S f =>
+    match one_pass_with st c mb ma (dec n) with
+    | None => RunFailed
+    | Some (st', c', p', ms) =>
+      let acc' := ps_add acc (p_stats p') in
+      match ms with
+      | [] => RunDone st' n acc' (log ++ [ms])
+      | _ => run_any f st' c' mb ma dec acc' (S n) (log ++ [ms])
       end
     end
   end.
